@@ -650,7 +650,9 @@ func (c *wsConn) removeCount(s *Subscription, direct bool, sent bool, count int,
 		s.direct -= count
 	} else {
 		s.indirect -= count
-		if sent {
+		// A reference added by an event that still waits for the resource to
+		// load is not yet counted as sent.
+		if sent && s.indirectsent >= count {
 			s.indirectsent -= count
 		}
 	}
